@@ -448,6 +448,32 @@ pub fn main_for(pid: &str) {
             run_tree(pid, &format!("c{}", k), &xot, &reg, root, &queries, &mut out, &mut stats, "bracket-enum");
             continue;
         }
+        if options && k >= BRACKET_DOCS && k < BRACKET_DOCS + SPACE_DOCS {
+            // exhaustive stream: four nested elements <a><b><c><d/></c><e/></b><f/></a>, each of a, b, c with xml:space absent /
+            // "preserve" / "default", b with and without a text child (mixed content), written with indentation on and off:
+            // the nearest xml:space attribute decides, however many elements without one lie in between
+            let j = k - BRACKET_DOCS;
+            let val = |x: usize| -> Vec<(usize, String)> { match x { 0 => vec![], 1 => vec![(0, "preserve".to_string())], _ => vec![(0, "default".to_string())] } };
+            let name = pool.names[0];
+            let leaf = |n: usize| ANode::Elem { name: n, ns: vec![], attrs: vec![], kids: vec![] };
+            let c = ANode::Elem { name, ns: vec![], attrs: val(j % 3), kids: vec![leaf(name)] };
+            let mut bk = vec![c, leaf(name)];
+            if (j / 27) % 2 == 1 { bk.insert(1, ANode::Text("x".into())); }
+            let b = ANode::Elem { name, ns: vec![], attrs: val((j / 3) % 3), kids: bk };
+            let a = ANode::Elem { name, ns: vec![], attrs: val((j / 9) % 3), kids: vec![b, leaf(name)] };
+            let t = ANode::Doc(vec![a]);
+            let root = build(&mut xot, &reg, &t);
+            let queries = vec![
+                RtParams { ser: SerParams { cdata: vec![], unescaped_gt: false, suppress: vec![] }, decl: None, indent: true },
+                RtParams { ser: SerParams { cdata: vec![], unescaped_gt: false, suppress: vec![] }, decl: None, indent: false },
+            ];
+            run_tree(pid, &format!("c{}", k), &xot, &reg, root, &queries, &mut out, &mut stats, "xml-space-enum");
+            // ... and the element <a> on its own
+            if let Some(el) = xot.first_child(root) {
+                run_tree(pid, &format!("c{}s", k), &xot, &reg, el, &queries[..1], &mut out, &mut stats, "xml-space-enum");
+            }
+            continue;
+        }
         let route = if pid == "C01" { k % 3 } else { k % 2 };
         let (root, route_name) = match route {
             1 => {
@@ -504,6 +530,7 @@ pub fn main_for(pid: &str) {
 }
 
 const BRACKET_DOCS: usize = 40;
+const SPACE_DOCS: usize = 54;
 
 pub fn bracket_strings() -> Vec<String> {
     let mut out = vec![];
